@@ -79,6 +79,8 @@ func (disk *Informer) GetMetric(ctx context.Context) *api.Metric {
 		}
 	}
 
+	verifGate("inf.checked")
+
 	var repoStat api.IPFSRepoStat
 	var metric uint64
 
